@@ -645,10 +645,12 @@ HXPread(accrec_t *access_rec, int32 length, void *data)
     if (!info->file_open || (info->file_open && extdir_changed)) {
         char *fname;
 
-        /* if the file is open, close it first */
+        /* if the file is open, close it first; data written through it may
+           still be buffered, so a failed close is an error */
         if (info->file_open) {
-            HI_CLOSE(info->file_external);
             info->file_open = FALSE;
+            if (HI_CLOSE(info->file_external) == FAIL)
+                HGOTO_ERROR(DFE_CANTCLOSE, FAIL);
         }
 
         /* build the customized external file name. */
@@ -723,10 +725,12 @@ HXPwrite(accrec_t *access_rec, int32 length, const void *data)
     if (!info->file_open || (info->file_open && extdir_changed)) {
         char *fname;
 
-        /* if the file is open, close it first */
+        /* if the file is open, close it first; data written through it may
+           still be buffered, so a failed close is an error */
         if (info->file_open) {
-            HI_CLOSE(info->file_external);
             info->file_open = FALSE;
+            if (HI_CLOSE(info->file_external) == FAIL)
+                HGOTO_ERROR(DFE_CANTCLOSE, FAIL);
         }
 
         /* build the customized external file name. */
